@@ -205,6 +205,9 @@ def Obs.toH : Obs → HEv SOp SRes
   | .retPop t v => .ret t (.val v)
   | .retPanic t => .ret t .panic
 
+/-- every observable of this model is a history event -/
+def Obs.toHO (o : Obs) : Option (HEv SOp SRes) := some o.toH
+
 /-- **linearization points**: the successful CAS of a Push or Pop, and the load of an empty `top`
 by a Pop — each an internal event of the call it linearizes -/
 def linOf (s : St) : Ev → Option (Nat × SOp × SRes)
